@@ -23,6 +23,7 @@ func checkC19(w *World, r *Report) {
 	r.Rule("C19.start", "P6,P7", "= C02.start for the inflation query: the rate is computed for the current period (result #0 of the shared selection) from the start its predecessor's end gives (params.StartTime without predecessor) - the same start the emission uses", 2)
 	r.Rule("C19.select", "P7", "= C02.select: the period whose rate is reported is selected by sequence id over all configured periods, as the emission does", 18)
 	r.Rule("C19.formula", "P6,P7", "closed world: inside a period with positive supply every value an implementation returns has the period's Amount, the year constant, the supply and (linear) the period start and end resp. (exponential) StepDuration and AmountMultiplier in its backward slice (origins restricted to the edges live in that ordering) - no shortcut result", 2)
+	r.Rule("C19.sameprecision", "P6", "sibling agreement: the rate of a configuration has no rounding / truncation operation on its backward slice that the emission formula of the same configuration (AmountToMint) does not have", 3)
 	r.Rule("C19.guard", "P5", "the division by the supply is dominated by the false edge of supply <= 0, whose true edge returns zero", 2)
 	r.Rule("C19.operands", "P6,P8", "the divisor originates from bank.GetSupply(params.MintDenom), the period from the selection over the stored state, the time from the block header; the constant year evaluates to 365 x 24 h; the query returns this value", 5)
 	if !ro.checkFloors(r) {
@@ -77,6 +78,54 @@ func checkC19(w *World, r *Report) {
 	}
 	if len(impls) < 3 {
 		r.Unk("C19.zero", "implementations of MinterConfigI.CalculateInflation", w.Pos(mci.Pos()), "fewer than 3 implementations resolved")
+	}
+	// C19.sameprecision: the rate annualises the very amounts the emission pays: no rounding or truncation step on the
+	// slice of a configuration's rate that the same configuration's emission formula does not have (the emission keeps
+	// the step amount as an untruncated Dec; a rate computed from a per-step truncated amount drifts away from it)
+	{
+		roundOps := []string{"types.Dec.TruncateInt", "types.Dec.TruncateDec", "types.Dec.RoundInt", "types.Dec.Ceil", "types.Dec.TruncateInt64", "types.Dec.RoundInt64", "types.Dec.MulTruncate", "types.Dec.QuoTruncate", "types.Dec.MulInt64", "math.Int.Quo", "math.Int.QuoRaw"}
+		roundOps = roundOps[:8] // (integer division of Ints is listed for documentation; MulInt64 is exact)
+		opsOf := func(f *ssa.Function) map[string]bool {
+			out := map[string]bool{}
+			t := w.Tracer()
+			for _, ret := range Returns(f) {
+				o := t.Origins(retVals(ret)[0])
+				for op := range o.Ops {
+					for _, ro := range roundOps {
+						if strings.HasSuffix(op, ro) {
+							out[ro] = true
+						}
+					}
+				}
+			}
+			return out
+		}
+		for _, impl := range impls {
+			rt := impl.Signature.Recv()
+			if rt == nil {
+				continue
+			}
+			var sib *ssa.Function
+			if pt, ok := rt.Type().(*types.Pointer); ok {
+				if nt, ok := pt.Elem().(*types.Named); ok {
+					sib = w.methodOf(nt, "AmountToMint")
+				}
+			} else if nt, ok := rt.Type().(*types.Named); ok {
+				sib = w.methodOf(nt, "AmountToMint")
+			}
+			if sib == nil || sib.Blocks == nil {
+				continue
+			}
+			extra := []string{}
+			have := opsOf(sib)
+			for op := range opsOf(impl) {
+				if !have[op] {
+					extra = append(extra, op[strings.LastIndex(op, ".")+1:])
+				}
+			}
+			sort.Strings(extra)
+			r.Check(len(extra) == 0, "C19.sameprecision", funcName(impl)+": no rounding step that the emission formula does not have", w.Pos(impl.Pos()), "the rate is computed at the precision of "+funcName(sib), "the reported rate rounds or truncates ("+strings.Join(extra, ", ")+") where the emission formula of the same configuration does not: the rate annualises other amounts than those minted")
+		}
 	}
 	for _, impl := range impls {
 		name := funcName(impl)
